@@ -82,6 +82,7 @@ from .asttypes import (
     Import,
     ImportFrom,
     In,
+    Interactive,
     Interpolation,
     Invert,
     Is,
@@ -5717,7 +5718,7 @@ class FST:
         if ast_cls in ASTS_LEAF_MAYBE_DOCSTR:
             return FSTView__body(self, '_body')
 
-        if ast_cls in ASTS_LEAF_BLOCK:
+        if ast_cls in ASTS_LEAF_BLOCK or ast_cls is Interactive:
             return FSTView(self, 'body')
 
         raise AttributeError(f"{ast_cls.__name__} does not have virtual field '_body'")
